@@ -598,3 +598,16 @@ mutant('T4-empty-account-classified-loaded', ['C10'], [
 mutant('T4-storage-known-ignores-missing-account', ['C10'], [
     (PS, "                account.status.is_storage_known() || account.account.is_none()", "                account.status.is_storage_known()"),
 ], ['|T4|'])
+
+mutant('H4-undo-credit-added-instead-of-removed', ['C13'], [
+    (RS, "                } else if *to == address && *from != address {\n                    balance = balance.saturating_sub(*value);", "                } else if *to == address && *from != address {\n                    balance = balance.saturating_add(*value);"),
+], ['|H4|'])
+mutant('H4-destroyed-target-ignored', ['C13'], [
+    (RS, "                } else if *target == address {\n                    balance = balance.saturating_sub(*had_balance);\n                }", "                }"),
+], ['|H4|'])
+mutant('H4-root-transfer-ignores-amount', ['C13'], [
+    (RS, "    if *from != tx.caller || *balance != tx.value {", "    if *from != tx.caller {"),
+], ['|H4|'])
+mutant('H4-self-transfer-counted-as-debit', ['C13'], [
+    (RS, "                    if from != to && !balance.is_zero() =>", "                    if !balance.is_zero() =>"),
+], ['|H4|'])
